@@ -354,8 +354,10 @@ func (x *Exec) applyKnownRegions(o *Obligation, env *SpecEnv) {
 			panic(fmt.Errorf("contract error in known_findings.json region for %s: %v", o.Name, err))
 		}
 		r := x.safeEvalBool(env, e, "known finding region")
+		// canary: the same obligation restricted to the region. While it cannot be discharged the finding is
+		// still present (the obligation holds outside the region and not inside); once it discharges, the defect is gone.
 		canary := &Obligation{Name: o.Name, Kind: "known-finding-canary", Func: o.Func, Hyps: append(append([]*Term(nil), o.Hyps...), r),
-			Goal: o.Goal, Axioms: o.Axioms, Opaque: o.Opaque, Watch: o.Watch, Expect: "refuted", Note: kf.What, SpecDefs: o.SpecDefs}
+			Goal: o.Goal, Axioms: o.Axioms, Opaque: o.Opaque, Watch: o.Watch, Note: kf.What, SpecDefs: o.SpecDefs}
 		x.obs = append(x.obs, canary)
 		o.Hyps = append(o.Hyps, Not(r))
 	}
